@@ -25,7 +25,7 @@ EvScan ==
   /\ LET e == Trace[l]
          genbank == e.seed \in {"s1", "s2"}
          ls == ApplyAll(Seeds[e.seed], e.muts)
-         inc == IF e.seed = "s1" /\ e.byteop.k = "none" THEN Inconsistent(ls, 70) ELSE {}
+         inc == IF e.seed = "s1" /\ e.byteop.k \in {"none", "pad", "split"} THEN Inconsistent(ls, 70) ELSE {}
          \* a cut that ends before the last line of the text truncates a record
          \* (a cut at column 0 right after a record terminator leaves complete records only)
          truncated == genbank /\ e.byteop.k = "trunc" /\ e.byteop.i < Len(ls) /\ e.variant # "trunc@0"
